@@ -56,6 +56,14 @@ UNIQ_EXPR = {'c': '"%s" | to_template_unique_name', 'py': '"%s" | to_template_un
              'cpp': '("%s" ~ T.short_name[:0]) | to_template_unique_name'}
 FID_FOLD = 'F-CPP-UNIQ-FOLD'
 FID_MEMO = 'F-PY-PICKLE-MEMO'
+AUDIT_TIME = re.compile(r'(Generated at\s*:\s*)[^\n]*UTC')
+
+
+def mask_time(text: str) -> str:
+    """with embed_auditing_info the files carry the wall-clock time of the run (C07's subject): masked before any comparison"""
+    return AUDIT_TIME.sub(r'\1<TIME> UTC', text)
+
+
 MODEL_BLOB = re.compile(r"_restore_constant_\(\s*(?:'[^'\n]*'\s*)+\)")
 
 
@@ -153,7 +161,11 @@ def skel(text: str) -> str:
     terminators).  The built-in templates' files are replayed through the model in this form (the extracted model works on
     lists of code points; whole headers would take minutes)."""
     out = []
-    for content, term in linepp.split_lines(text):
+    parts = re.split('(\r\n|\n)', text)            # same line structure as linepp.split_lines, without the per-character loop
+    pairs = [(parts[i], parts[i + 1] if i + 1 < len(parts) else '') for i in range(0, len(parts), 2)]
+    if pairs and pairs[-1] == ('', ''):
+        pairs.pop()
+    for content, term in pairs:
         if content == '':
             c = ''
         elif content.strip() == '' and re.fullmatch(r'\s+', content):
@@ -170,8 +182,14 @@ def clean_boundary_possible(prev_texts: typing.List[str], pps) -> bool:
     if not any(p[0] == 'limit' for p in pps):
         return False
     for t in prev_texts:
-        ls = linepp.split_lines(t)
-        if ls and ls[-1][0].strip() == '':
+        if t and t.replace('\r\n', '\n').rsplit('\n', 1)[-1].strip() == '' and '\n' in t:
+            last = t.replace('\r\n', '\n').rstrip('\n') if t.endswith('\n') else t
+            # the last LINE (content before the final terminator, or the unterminated rest) is empty
+            tail = t.replace('\r\n', '\n')
+            line = tail[:-1].rsplit('\n', 1)[-1] if tail.endswith('\n') else tail.rsplit('\n', 1)[-1]
+            if line.strip() == '':
+                return True
+        elif t and '\n' not in t and t.strip() == '':
             return True
     return False
 
@@ -327,7 +345,7 @@ def model_request(deps: typing.Dict[str, typing.List[str]], tables: typing.Dict[
     for k, ds in deps.items():
         lines.append('U %s %d e %s' % (enc(k), ids.get(cls_of.get(k, ''), 0), enc_list(ds)))
     for (cf, k), script in tables.items():
-        key, pre, suf = UNIQ_ARGS[lang_of_cfg[cf]]
+        key, pre, suf = UNIQ_ARGS[lang_of_cfg[cf // 16]]        # cf is the effective configuration: cfg * 16 + per-call args
         items = []
         for it in script:
             if it[0] == 't':
@@ -341,7 +359,7 @@ def model_request(deps: typing.Dict[str, typing.List[str]], tables: typing.Dict[
         if o[0] == 'new':
             lines.append('N %d %s %s %s' % (o[1], ','.join('%s=%s' % (enc(a), enc(b)) for a, b in o[4]) or '-', enc_pps(o[2]), enc_list(o[3])))
         elif o[0] == 'run':
-            lines.append('R %d %s' % (o[1], enc_list(o[2])))
+            lines.append('R %d %d %d %s' % (o[1], o[3], o[4], enc_list(o[2])))
         else:
             lines.append('C')
     lines.append('X %d %d - %d' % (resets, lel_shared, markers))
@@ -410,8 +428,11 @@ class Hist:
     def mkeys(self) -> typing.List[str]:
         return list(self.sp.order) + (['v2:' + k for k in self.sp.order] if getattr(self.sp, 'v2', None) is not None else [])
 
-    def run(self, gid: int, perm=None, chunks=False):
-        self.steps.append({'op': 'run', 'gen': 'g%d' % gid, 'perm': perm, 'chunks': chunks, 'gid': gid})
+    def run(self, gid: int, perm=None, chunks=False, args: int = 0, dry: bool = False):
+        """args: bit 0 = omit_serialization_support, bit 1 = embed_auditing_info (per-call arguments of generate_all)"""
+        self.steps.append({'op': 'run', 'gen': 'g%d' % gid, 'perm': perm, 'chunks': chunks, 'gid': gid, 'a': args, 'dry': dry,
+                           'args': {'is_dryrun': dry, 'omit_serialization_support': bool(args & 1),
+                                    'embed_auditing_info': bool(args & 2)}})
 
     def clear(self):
         self.steps.append({'op': 'clear_caches'})
@@ -453,6 +474,10 @@ def script_templates(sp: Space, scripts: typing.Dict[str, list], lang: str, cons
                 body.append(it[1])
             elif it[0] == 'k':
                 body.append('<%s>' % fname)
+            elif it[0] == 'omit':
+                body.append('{{ nunavut.support.omit }}')
+            elif it[0] == 'audit':
+                body.append('{{ nunavut.embed_auditing_info }}')
             elif it[0] == 'u':
                 body.append('{{ %s }}' % ((UNIQ_EXPR['c'] if const_args else UNIQ_EXPR[lang]) % it[1]))
             elif it[0] == 'id':
@@ -478,8 +503,10 @@ def gen_script(rng, tid: str) -> list:
         r = rng.random()
         if r < 0.45:
             items.append(['t', ''.join(rng.choice(TEXT_ALPHABET) for _ in range(rng.randrange(1, 5)))])
-        elif r < 0.85:
+        elif r < 0.8:
             items.append(['u', rng.choice(BASES)])
+        elif r < 0.9:
+            items.append([rng.choice(['omit', 'audit'])])
         else:
             items.append(['id'])
     if style in (1, 2):
@@ -489,6 +516,11 @@ def gen_script(rng, tid: str) -> list:
     # the marker naming the template file goes somewhere inside, so that files can still start and end with blank lines
     items.insert(rng.randrange(0 if rng.random() < 0.15 else 1, max(len(items), 2)), ['k'])
     return items
+
+
+def concretise_args(script: list, args: int) -> list:
+    """script items that print the per-call arguments of generate_all become text"""
+    return [['t', str(bool(args & 1))] if it[0] == 'omit' else ['t', str(bool(args & 2))] if it[0] == 'audit' else it for it in script]
 
 
 def concrete_script(script: list, tid: str) -> list:
@@ -540,8 +572,10 @@ def gen_script_history(rng, idx: int) -> Hist:
             subset = sp.closure(rng.sample(sp.order, rng.randrange(1, len(sp.order) + 1)))
         pps = rng.choice(PPS_CHOICES)
         g = h.new(cfg, subset, pps)
-        for _ in range(rng.choice([1, 1, 2])):
-            h.run(g, perm=rng.choice([None, 'rev', rng.randrange(1, 1000)]))
+        for _ in range(rng.choice([1, 1, 2, 3])):
+            if rng.random() < 0.2:
+                h.run(g, dry=True, perm=rng.choice([None, 'rev']))        # dry run first: looks templates up, writes nothing
+            h.run(g, perm=rng.choice([None, 'rev', rng.randrange(1, 1000)]), args=rng.choice([0, 0, 1, 2, 3]))
         if rng.random() < 0.2:
             h.clear()
         if len(h.gens) > 1 and rng.random() < 0.3:
@@ -617,6 +651,16 @@ def gen_builtin_histories(rng, lang: str, sp: Space, tier: str) -> typing.List[H
     g0 = h.new(1)
     h.run(g0, chunks=True)
     h.run(g0, perm=rng.randrange(1, 1000))                       # second run of the same generator object, other order
+    # the SAME generator object called again with other per-call arguments (what update_nunavut_globals hands to the
+    # templates), a dry run in between, and the first combination once more
+    h.run(g0, args=1, chunks=True)
+    h.run(g0, args=0, perm='rev')
+    h.run(g0, dry=True)
+    h.run(g0, args=2, chunks=True)
+    if tier != 'quick':
+        h.run(g0, args=3, chunks=True)
+    h.run(g0, args=1, perm=rng.randrange(1, 1000))
+    h.run(g0, args=0)
     sub = sp.closure(rng.sample(sp.order, 2))
     g1 = h.new(1, sub)
     h.run(g1, perm='rev')                                        # dependency-closed subset, same interpreter
@@ -642,6 +686,13 @@ def gen_builtin_histories(rng, lang: str, sp: Space, tier: str) -> typing.List[H
         gt = h.new(1, sp.closure([t]))
         h.run(gt, perm={'first': t})
     out.append(h)
+    # references for the per-call arguments: a new interpreter, a new generator, called once with those arguments
+    for a in ([1, 2] if tier == 'quick' else [1, 2, 3]):
+        fa = Hist('builtin-%s-fresh-args%d' % (lang, a), sp, 'builtin')
+        fa.hashseed = rng.randrange(0, 1000)
+        fa.cfgs = h.cfgs
+        fa.run(fa.new(1), args=a, chunks=True)
+        out.append(fa)
     # reference for the redefined namespace: a new interpreter that has never seen the first variant
     fv = Hist('builtin-%s-fresh-v2' % lang, sp, 'builtin')
     fv.hashseed = rng.randrange(0, 1000)
@@ -689,9 +740,13 @@ def line_up(h: Hist, out: typing.List[dict]) -> typing.Tuple[typing.List[dict], 
         elif st['op'] == 'run':
             gid = st['gid']
             g = h.gens[gid]
-            ops.append(('run', gid, [g['prefix'] + k for k in r['order']]))
+            ops.append(('run', gid, [g['prefix'] + k for k in r['order']], st.get('a', 0), int(bool(st.get('dry')))))
+            if st.get('dry'):
+                if r.get('files'):
+                    errs.append('run: dry run wrote files')
+                continue
             for k in r['order']:
-                entries.append({'gid': gid, 'cfg': g['cfg'], 'key': k, 'mkey': g['prefix'] + k, 'text': r['files'][k], 'pps': g['pps'],
+                entries.append({'gid': gid, 'cfg': g['cfg'], 'ecfg': g['cfg'] * 16 + st.get('a', 0), 'args': st.get('a', 0), 'key': k, 'mkey': g['prefix'] + k, 'text': mask_time(r['files'][k]), 'pps': g['pps'],
                                 'chunks': (r.get('chunks') or {}).get(k), 'tmpl': (r.get('tmpl') or {}).get(k),
                                 'cls': (r.get('cls') or {}).get(k), 'tset': g['tset']})
         else:
@@ -763,7 +818,10 @@ def main(chk: core.Check, replay: typing.Optional[str] = None) -> int:
     sp = builtin_space(rng, 3 if quick else 10)
     for lang in LANGS:
         hists += gen_builtin_histories(rng, lang, sp, chk.tier)
+    import time as _t
+    t_h0 = _t.time()
     results = run_histories([h.job() for h in hists])
+    t_h1 = _t.time()
 
     # 3. probe the known finding on the implementation (witness history = hists[0])
     w_entries, w_ops, w_errs = line_up(hists[0], results[0]['out'])
@@ -840,7 +898,7 @@ def main(chk: core.Check, replay: typing.Optional[str] = None) -> int:
             fresh = 'fresh' in h.name
             for e in entries:
                 if e['chunks'] is not None:
-                    k = (lang, e['cfg'], e['mkey'])
+                    k = (lang, e['ecfg'], e['mkey'])
                     if fresh or k not in builtin_chunks:
                         builtin_chunks[k] = e['chunks']
     r_forest = {id(h): r.get('forest', {}) for h, r in zip(hists, results)}
@@ -851,29 +909,34 @@ def main(chk: core.Check, replay: typing.Optional[str] = None) -> int:
     for h, (entries, ops, errs) in zip(hists, lined):
         lang_of_cfg = {c: v['lang'] for c, v in h.cfgs.items()}
         tables = {}
+        used_args = sorted({e['args'] for e in entries} | {0})
         for c, v in h.cfgs.items():
+          for a in used_args:
             for t in h.mkeys():
                 if h.kind == 'script':
-                    tables[(c, t)] = v['scripts'][t]
+                    tables[(c * 16 + a, t)] = concretise_args(v['scripts'][t], a)
                 else:
-                    ch = builtin_chunks.get((v['lang'], c, t))
+                    ch = builtin_chunks.get((v['lang'], c * 16 + a, t))
                     if ch is not None:
-                        tables[(c, t)] = [['t', skel(canon(v['lang'], ''.join(ch)))]]
+                        tables[(c * 16 + a, t)] = [['t', skel(canon(v['lang'], ''.join(ch)))]]
         cls_of = {e['mkey']: e['cls'] for e in entries if e.get('cls')}
         requests.append(model_request(h.all_deps(), tables, lang_of_cfg, ops, resets_fact, lel_shared, r_forest[id(h)], cls_of,
                                       h.markers))
+    t_m0 = _t.time()
     models = run_model(exe, requests) if ok_model else [None] * len(hists)
+    chk.notes.append('phases: coq+build %.0fs, implementation histories %.0fs, extracted model %.0fs' % (
+        t_h0 - chk.t0, t_h1 - t_h0, _t.time() - t_m0))
 
     # reference bytes for built-in templates: the file of a type generated FIRST by a new interpreter from its closure only
     alone_builtin: typing.Dict[typing.Tuple[str, int, str], typing.Tuple[str, str]] = {}
     for h, (entries, ops, errs) in zip(hists, lined):
         if h.kind == 'builtin' and 'fresh' in h.name and entries and not errs:
             e = entries[0]
-            alone_builtin.setdefault((h.cfgs[e['cfg']]['lang'], e['cfg'], e['mkey']), (e['text'], h.name + ' (first file of a new interpreter)'))
+            alone_builtin.setdefault((h.cfgs[e['cfg']]['lang'], e['ecfg'], e['mkey']), (e['text'], h.name + ' (first file of a new interpreter)'))
     for h, (entries, ops, errs) in zip(hists, lined):       # then: any file of a new interpreter that generated one namespace once
         if h.kind == 'builtin' and 'fresh' in h.name and not errs:
             for e in entries:
-                alone_builtin.setdefault((h.cfgs[e['cfg']]['lang'], e['cfg'], e['mkey']), (e['text'], h.name + ' (new interpreter)'))
+                alone_builtin.setdefault((h.cfgs[e['cfg']]['lang'], e['ecfg'], e['mkey']), (e['text'], h.name + ' (new interpreter)'))
     for h, (entries, ops, errs), m in zip(hists, lined, models):
         if h.kind == 'probe':
             continue
@@ -911,16 +974,17 @@ def main(chk: core.Check, replay: typing.Optional[str] = None) -> int:
             me = m['entries'][i] if m is not None else None
             if me is not None and not me['clean']:
                 stats['unclean_boundaries_in_model'] += 1
-            trigger = clean_boundary_possible(prev_by_gen.get(e['gid'], []), e['pps'])
-            prev_by_gen.setdefault(e['gid'], []).append(e['text'])
+            trigger = bool(prev_by_gen.get(e['gid']))
+            if not trigger and clean_boundary_possible([e['text']], e['pps']):
+                prev_by_gen[e['gid']] = [True]          # from now on a later file of this generator may meet a non-zero counter
             # --- the property oracle
             if h.kind == 'script':
-                script = h.cfgs[e['cfg']]['scripts'][e['key']]
+                script = concretise_args(h.cfgs[e['cfg']]['scripts'][e['key']], e['args'])
                 sel = oracle_select(e['cls'], e['tset'])
                 expect = alone_oracle(script_text(script, lang, '<%s>' % (sel or '')), e['pps'])
                 uses_uniq = any(it[0] == 'u' for it in script)
             else:
-                k = (lang, e['cfg'], e['mkey'])
+                k = (lang, e['ecfg'], e['mkey'])
                 if k not in alone_builtin:
                     alone_builtin[k] = (e['text'], h.name)
                 expect = alone_builtin[k][0]
@@ -949,7 +1013,7 @@ def main(chk: core.Check, replay: typing.Optional[str] = None) -> int:
                     stats['known_finding_instances'] += 1
                 else:
                     bad_oracle.append({'history': h.name, 'file_index': i, 'type': e['key'], 'lang': lang, 'expected': expect,
-                                       'got': e['text'], 'reference': alone_builtin.get((lang, e['cfg'], e['mkey']), ('', 'alone oracle'))[1]
+                                       'got': e['text'], 'reference': alone_builtin.get((lang, e['ecfg'], e['mkey']), ('', 'alone oracle'))[1]
                                        if h.kind == 'builtin' else 'own script only', 'job': h.job()})
             # --- model vs. implementation
             if me is not None:
